@@ -258,17 +258,35 @@ pub fn gen_valid(rng: &mut Rng) -> Vec<u8> {
     out.push(b' ');
     out.extend_from_slice(&gen_target(rng));
     out.extend_from_slice(b" HTTP/");
-    let maj = match rng.below(4) {
+    // any number of digits: what fits a byte, a word, a u32, a u64 - and what does not
+    let digits = |rng: &mut Rng| -> String {
+        match rng.below(8) {
+            0 => *rng.pick(&["255", "256", "65535", "65536", "4294967295", "4294967296", "18446744073709551615", "18446744073709551616"]),
+            1 => "00000000001",
+            2 => "99999999999999999999999999999999",
+            _ => "",
+        }
+        .to_string()
+    };
+    let maj = match rng.below(5) {
         0 => "1".to_string(),
         1 => "2".to_string(),
         2 => rng.below(10).to_string(),
-        _ => rng.below(100000).to_string(),
+        3 => rng.below(100000).to_string(),
+        _ => {
+            let d = digits(rng);
+            if d.is_empty() { "1".to_string() } else { d }
+        }
     };
-    let min = match rng.below(4) {
+    let min = match rng.below(5) {
         0 => "1".to_string(),
         1 => "0".to_string(),
         2 => rng.below(10).to_string(),
-        _ => rng.below(100000).to_string(),
+        3 => rng.below(100000).to_string(),
+        _ => {
+            let d = digits(rng);
+            if d.is_empty() { "0".to_string() } else { d }
+        }
     };
     out.extend_from_slice(maj.as_bytes());
     out.push(b'.');
